@@ -66,6 +66,21 @@ CLAIMED = {
              'in-range length fields proved to return its result dict on every path.',
         note='for-loops over finite containers and library calls terminate (assumed); light-mode over-approximation of unmodelled operations; T5',
         ref='5 C11, App. E'),
+    'C05': dict(
+        text='BGP.send_open is verified against OPEN_SPEC(4, as2(my_asn), configured hold time, bgp_id, CAPS(configured set)): the octets written '
+             'are that function of the configuration for every AS number / hold time / identifier (three capability-set shapes); connectionMade '
+             'resets the recorded peer capabilities and chooses the identifier once; FSM.connection_made restores the configured timers (NoPoison); '
+             '_open_received accepts iff version 4, effective AS = configured remote AS, hold time not 1 or 2, sets H = min(configured, proposed) '
+             'and 4-octet mode iff both sides advertised capability 65; Open.construct / Open.parse verified against the RFC encoder.',
+        note='T1; capability shapes enumerated (values symbolic); peer OPEN enters _open_received through the abstract decode view (C14 verifies Open.parse)',
+        ref='5 C05'),
+    'C14': dict(
+        text='E/D contracts: Notification/KeepAlive/RouteRefresh construct == RFC spec for all field values (struct.error exactly outside the ranges), '
+             'parse == RFC decode for ALL byte strings; Open.construct == reference encoder for six capability-set shapes; Open.parse == reference '
+             'decode on 18 capability/packaging scenarios (one per parameter, several per parameter, unknown codes, LLGR, add-path, extended next hop, '
+             'no optional parameters) with every field symbolic; spec-level round-trip lemmas.',
+        note='T3 library models; OPEN capability shapes are an enumerated set (<= 4 capabilities per message): bounded in shape, unbounded in values',
+        ref='5 C14'),
 }
 checks = []
 for pid, c in CLAIMED.items():
@@ -85,7 +100,7 @@ m = {
                  'kind_free_text': 'home-made contract verifier: symbolic execution of the real /repo AST per function against '
                                    'sidecar contracts, obligations discharged by z3 (cvc5 second back end), native replay under /venv/bin/python'}],
     'checks': checks,
-    'notes': 'fix: commits in /repo (see known_findings.jsonl): 392e84f af6fcf3 5c6aba0 718ac22 a1681d0 ba1e9fe a4d66e3',
+    'notes': 'fix: commits in /repo (see known_findings.jsonl): 392e84f af6fcf3 5c6aba0 718ac22 a1681d0 ba1e9fe a4d66e3 8bf02f8 8829df2 e0fadd6',
     'not_applicable': [{'property_id': p['id'], 'reason': 'check not built yet (build in progress); see DESIGN.md section 5'}
                        for p in props if p['id'] not in CLAIMED],
 }
